@@ -14,6 +14,7 @@ import warnings
 import numpy as np
 
 from sim.runner import new_result
+from sim.treefault import TreeFaultPlan, faulty
 from sim.seams import patched, import_typhon
 from sim import digest_of
 
@@ -156,6 +157,16 @@ def gen_workload(tape):
         q["self_query"] = tape.flag("self_query", 1, 6)
         qs.append(q)
     w["queries"] = qs
+    # allocation failure at the tree seam: in the k-th tree construction or the
+    # k-th radius query of the run (None = no fault)
+    w["alloc_fault"] = None
+    if tape.flag("alloc_fault", 1, 8):
+        w["alloc_fault"] = [tape.pick(["build", "query", "query"], "af_kind"),
+                            1 + tape.choice(3, "af_k")]
+    # two caller threads share the index: each takes every second query
+    w["two_callers"] = tape.flag("two_callers", 1, 6)
+    w["line_stride"] = 5 + tape.choice(30, "linestride") if w["two_callers"] else 0
+    w["store_stride"] = 1 + tape.choice(3, "storestride") if w["two_callers"] else 0
     return w
 
 
@@ -178,6 +189,41 @@ def arc_matrix(b, q, R):
     a = np.sin((la2 - la1) / 2) ** 2 + np.cos(la1) * np.cos(la2) * \
         np.sin((lo2 - lo1) / 2) ** 2
     return 2 * R * np.arcsin(np.minimum(1.0, np.sqrt(a)))
+
+
+def _run_two_callers(tape, w, gmod, do_query, nq):
+    """Two simulated caller threads share the index and take every second
+    query each; the kernel decides who runs, with line pre-emption inside
+    typhon.geographical (loop-insensitive and store-biased points)."""
+    from sim.kernel import Sim, Deadlock, StepCap
+    from sim.linepreempt import LinePreempt, periodic_points
+    sim = Sim(tape, {"kind": "random", "bias": 1 + tape.choice(4, "bias")}, step_cap=4000)
+    sim.line_preempt = LinePreempt(
+        sim, [gmod], periodic_points(1 + w["line_stride"] % 7, w["line_stride"], 200),
+        only="caller",
+        store_points=periodic_points(1, w["store_stride"], 200))
+    out = {"violations": [], "digest": None, "fired": 0}
+
+    def caller(k):
+        for qi in range(k, nq, 2):
+            sim.yield_(f"caller{k}.q{qi}")
+            do_query(qi)
+
+    def main():
+        a = sim.spawn("caller0", caller, 0)
+        b = sim.spawn("caller1", caller, 1)
+        sim.block_until(lambda: a.done and b.done, "join")
+        for t in (a, b):
+            if t.exc is not None:
+                raise t.exc
+
+    try:
+        sim.run(main)
+    except (Deadlock, StepCap) as e:
+        out["violations"].append(_viol("C06/two-callers/no-termination", str(e)[:200]))
+    out["digest"] = sim.digest()
+    out["fired"] = sim.line_preempt.fired
+    return out
 
 
 def _viol(sig, msg, extra=None):
@@ -274,21 +320,36 @@ def run_one(tape, only=None):
         return p
 
     proxy = NpProxy(chooser)
+    plan = TreeFaultPlan()
+    if w["alloc_fault"]:
+        if w["alloc_fault"][0] == "build":
+            plan.build_fail_at = w["alloc_fault"][1]
+        else:
+            plan.query_fail_at = w["alloc_fault"][1]
     kw = {}
     if w["leaf"] is not None:
         kw["leaf_size"] = w["leaf"]
     answers = []
     qbufs = {}
-    nontrivial = False
-    with patched((gmod, "np", proxy)), warnings.catch_warnings():
+    state = {"nontrivial": False}
+    sched = None
+    with patched((gmod, "np", proxy),
+                 (gmod, "BallTree", faulty(gmod.BallTree, plan)),
+                 (gmod, "KDTree", faulty(gmod.KDTree, plan))), warnings.catch_warnings():
         warnings.simplefilter("ignore")
-        try:
-            blat, blon = build[:, 0].copy(), build[:, 1].copy()
-            index = GeoIndex(blat, blon, metric=w["metric"],
-                             tree_class=w["tree"], shuffle=w["shuffle"], **kw)
-        except Exception as e:  # noqa
-            V.append(_viol(f"C06/build/exception/{type(e).__name__}", f"{e}"[:300]))
-            index = None
+        index = None
+        blat, blon = build[:, 0].copy(), build[:, 1].copy()
+        for attempt in (1, 2):
+            try:
+                index = GeoIndex(blat, blon, metric=w["metric"],
+                                 tree_class=w["tree"], shuffle=w["shuffle"], **kw)
+                break
+            except Exception as e:  # noqa
+                if plan.take_fired():
+                    probe("build_failed_and_retried")      # allowed: it may fail
+                    continue
+                V.append(_viol(f"C06/build/exception/{type(e).__name__}", f"{e}"[:300]))
+                break
         if index is not None:
             perm = used_perm.get("p")
             for k in range(w["other_indexes"]):
@@ -309,7 +370,8 @@ def run_one(tape, only=None):
                 probe("perm_" + ("random" if w["perm"] == "random" else
                                  "reverse" if w["perm"] == "reverse" else
                                  "identity" if w["perm"] == "identity" else "match0"))
-            for qi, (qp, D, r, border, q) in enumerate(queries):
+            def do_query(qi):
+                qp, D, r, border, q = queries[qi]
                 exp = {(int(i), int(j)) for i, j in np.argwhere((D <= r) & ~border)}
                 maybe = {(int(i), int(j)) for i, j in np.argwhere(border)}
                 rf = float(r)
@@ -322,9 +384,10 @@ def run_one(tape, only=None):
                         probe("self_query_same_objects")
                         pairs, dist = index.query(blat, blon, r=spell)
                     elif w["reuse_query_buffers"]:
-                        key = len(qp)
+                        # (each caller thread has buffers of its own)
+                        key = (qi % 2 if w["two_callers"] else 0, len(qp))
                         if key not in qbufs:
-                            qbufs[key] = (np.empty(key), np.empty(key))
+                            qbufs[key] = (np.empty(key[1]), np.empty(key[1]))
                         else:
                             probe("query_buffers_refilled_in_place")
                         qbufs[key][0][:] = qp[:, 0]
@@ -333,9 +396,12 @@ def run_one(tape, only=None):
                     else:
                         pairs, dist = index.query(qp[:, 0].copy(), qp[:, 1].copy(), r=spell)
                 except Exception as e:  # noqa
+                    if plan.take_fired():
+                        probe("query_failed_under_fault")   # allowed: it may fail
+                        return
                     V.append(_viol(f"C06/query/exception/{type(e).__name__}",
                                    f"query {qi} r={spell}: {e}"[:300]))
-                    continue
+                    return
                 pairs = np.asarray(pairs)
                 if pairs.size == 0:
                     got, gl = set(), []
@@ -351,7 +417,7 @@ def run_one(tape, only=None):
                     probe("match_on_tree_position_0")
                 if w["shuffle"] and exp and perm is not None and \
                         not np.array_equal(perm, np.arange(len(perm))):
-                    nontrivial = True
+                    state["nontrivial"] = True
                 desc = (f"query {qi}: n={n}, m={len(qp)}, r={spell}, metric={metric}, "
                         f"tree={w['tree']}, shuffle={w['shuffle']}/{w['perm']}")
                 if len(gl) != len(got):
@@ -383,6 +449,18 @@ def run_one(tape, only=None):
                                 "C06/distance-value",
                                 f"{desc}: pair {gl[k]} distance {dist[k]} km, "
                                 f"harness computes {want[k]} km"))
+
+            if not w["two_callers"]:
+                for qi in range(len(queries)):
+                    do_query(qi)
+            else:
+                probe("two_caller_threads")
+                two = _run_two_callers(tape, w, gmod, do_query, len(queries))
+                V.extend(two["violations"])
+                sched = two["digest"]
+                lp_fired = two["fired"]
+                if lp_fired:
+                    probe("line_preemptions_in_callers")
     seen, uniq = set(), []
     for v in V:
         if v["signature"] not in seen:
@@ -391,10 +469,11 @@ def run_one(tape, only=None):
     res["violations"] = uniq
     res["probes"] = probes
     res["executions"] = max(1, len(answers))
-    res["nontrivial"] = nontrivial
+    res["nontrivial"] = state["nontrivial"]
     res["wdigest"] = digest_of({k: v for k, v in w.items() if k not in ("perm", "perm_seed")})
-    res["edigest"] = digest_of([w["perm"], w["perm_seed"], target0, answers])
+    res["edigest"] = digest_of([w["perm"], w["perm_seed"], target0, sorted(answers), sched])
     res["faults"] = {"permutation_" + w["perm"]: 1} if w["shuffle"] else {}
+    res["faults"].update(plan.fired)
     res["kinds"] = [f"metric={metric}", f"tree={w['tree']}", f"perm={w['perm'] if w['shuffle'] else 'off'}"]
     res["counters"] = {"build_points": n, "queries": len(queries)}
     res["sample"] = {
